@@ -153,6 +153,25 @@ def setter_rules(F, D, res, adts):
                         exact = any(arg_is(new, a) for a in args)
                         res.ob(exact, "setter-frame" if "owned" not in it["name"] else "rebuild-copy", d,
                                f"{name}::{it['name']}: field {f} receives the argument unchanged", detail=f"{f}: {new!r}"[:300], pc=s.pc)
+                # ... and every argument reaches the configuration: a builder method that drops what it was given (an
+                # adder that does not add, a setter that does not set) makes the output depend on less than what was configured
+                if isinstance(r, StructV) and r.adt == adt:
+                    reach = set()
+                    for f in fields:
+                        x = r.fields.get(f)
+                        if isinstance(x, CollV):
+                            for pc_, val, ex_, how in s.colls.get(x.seq, ()):
+                                atoms_of_value(val, reach)
+                            if not (isinstance(me.fields.get(f), CollV) and me.fields[f].seq == x.seq):
+                                atoms_of_value(x, reach)
+                        else:
+                            atoms_of_value(x, reach)
+                    for i_, a_ in enumerate(args):
+                        aa = atoms_of_value(a_)
+                        if aa:
+                            res.ob(bool(aa & reach), "setter-effect", d,
+                                   f"{name}::{it['name']}: argument {i_ + 1} reaches the builder's configuration (it is stored, appended or inserted)",
+                                   detail=repr(a_)[:160], pc=s.pc)
                 results.setdefault(it["name"], []).append((s, r, args))
         # an `x_owned` method is `x` up to ownership: on the same arguments both leave the same configuration
         for mname, outs_o in results.items():
